@@ -320,7 +320,7 @@ func (nd *cnode) walk(path string, parent *cnode, idx int, maxArr int, out *[]cp
 
 var malformations = []string{"absent", "null", "type-uint", "type-array", "type-tstr", "empty", "zero", "negative",
 	"oversize-2^32", "oversize-2^63", "uint+1", "uint+2", "len-prefix-2^32", "len-prefix+1", "truncated-half", "truncated-1", "extended",
-	"inner-count-2^32", "inner-count-2^27", "inner-count-0", "inner-count+1", "dup-last", "drop-last", "copy-sibling", "bitflip", "all-ff"}
+	"inner-count-2^32", "inner-count-2^27", "inner-count-0", "inner-count+1", "dup-last", "drop-last", "copy-sibling", "key-rename", "bitflip", "all-ff"}
 
 // applyMalformation mutates the tree in place (call it on a clone); false = not applicable to this node.
 func applyMalformation(p cpath, kind string) bool {
@@ -533,6 +533,21 @@ func applyMalformation(p cpath, kind string) bool {
 			return false
 		}
 		return replace(par.kids[j].clone())
+	case "key-rename":
+		// the entry of a map filed under another key (a table keyed by party: the value of one party under an unknown
+		// id, with the number of entries unchanged; a struct: an unknown field in the place of a known one)
+		if par == nil || par.major != 5 || p.idx < 1 {
+			return false
+		}
+		k := par.kids[p.idx-1]
+		if (k.major != 2 && k.major != 3) || k.embed || k.rawHeader != nil {
+			return false
+		}
+		nk := k.clone()
+		nk.data = append(append([]byte{}, k.data...), 'x')
+		nk.arg = uint64(len(nk.data))
+		par.kids[p.idx-1] = nk
+		return true
 	}
 	return false
 }
